@@ -181,6 +181,43 @@ CHECKS.update(
     }
 )
 
+CHECKS.update(
+    {
+        "C07": dict(
+            category="exploration",
+            technique="bounded small-scope enumeration (all DAGs <= 4-5 nodes x conditional/terminal flags x weights x state vectors built through legal call sequences) against contracts written from the statement; Task.cancel under a proved contract",
+            text=(
+                "Bounded stand-in: notify_task_completion on a conditional releases exactly one child drawn among positive-weight children and cancels the siblings' branches up to but "
+                "excluding the join (closure computed independently); resolution at submission is compared with the run-time release. Task.cancel itself is proved (pyvc). "
+                "TaskGraph.cancel / notify_task_completion are generator/closure heavy and are not yet under a pyvc contract."
+            ),
+            note="Bounded (bound in the evidence). FakeRandomNumberGenerator ignoring declared weights is an observation, not an obligation.",
+            design_ref="DESIGN.md section 6 (C07)",
+        ),
+        "C13": dict(
+            category="exploration",
+            technique="bounded enumeration of scheduler inputs (<= 4 offered tasks incl. ties, 1-2 strategies, 1-2 pools x 1-2 workers, partially occupied) with an independent ledger replay of the returned decisions; pyvc contracts on the fit test",
+            text="Bounded stand-in: for EDF/FIFO/LSF every unplaced task must fit nowhere once exactly the higher-or-equal-priority placed tasks are accounted for, decisions must be jointly feasible and ordered by the policy's key. The fit test (Resources.__gt__, Worker.can_accomodate_strategy) is proved for all inputs; the scheduling loops are not yet under a pyvc contract.",
+            note="Bounded (bound in the evidence).",
+            design_ref="DESIGN.md section 6 (C13)",
+        ),
+        "C15": dict(
+            category="exploration",
+            technique="bounded enumeration of Clockwork arrival histories (<= 3 invocations x <= 5 requests x 2 models x batch sizes {1,2,4} x loading states x both goals) driven like the simulator would",
+            text="Bounded stand-in: every returned placement set is checked for same-model full batches on a loaded worker that can hold the strategy, on-time w.r.t. the earliest deadline, no request placed twice across invocations, hopeless requests cancelled; Model queue invariants after each call.",
+            note="Bounded (bound in the evidence); the driver mimics simulator.py's application of placements.",
+            design_ref="DESIGN.md section 6 (C15)",
+        ),
+        "C18": dict(
+            category="exploration",
+            technique="bounded enumeration of task-graph states built through legal call sequences x times x lookaheads x switches against contracts from the statement; Task.is_complete under a proved contract",
+            text="Bounded stand-in: get_schedulable_tasks never starves a released task, never offers completed/cancelled tasks, offers scheduled/running ones only with retraction/preemption, is monotone in lookahead and release_taskgraphs; get_releasable_tasks and notify_task_completion release exactly the unlocked children.",
+            note="Bounded (bound in the evidence; 4-node frontier states sampled).",
+            design_ref="DESIGN.md section 6 (C18)",
+        ),
+    }
+)
+
 NOT_APPLICABLE = {
     "C20": "C++20 back-end (templates, shared_ptr DAGs, TBB): no deductive verifier for C++ is installed, the code cannot be annotated in place nor mechanically extracted into something z3/cvc5 VCs model soundly, and the library cannot be built here (TBB absent); a dump-and-check driver would be a different technique family.",
 }
